@@ -13,7 +13,7 @@
 From SV Require Import Base.Prelude Base.Bytes Model.FrameBase Model.FrameTypes Model.FrameResp
   Model.FrameCustom Model.FrameEnc Model.FrameChunk Model.FrameValues Proofs.FrameBase_proofs Proofs.FrameTop_proofs
   Proofs.FrameCustom_proofs Proofs.FrameC08_proofs Proofs.FrameChunk_proofs Proofs.FrameValues_proofs
-  Proofs.FrameLocal_proofs.
+  Proofs.FrameLocal_proofs Proofs.C08_d4_proofs.
 Open Scope N_scope.
 
 (* well-formed response decoded exactly, under every feature combination, whatever follows *)
@@ -182,6 +182,71 @@ Theorem C08_model_passes_predicates : forall decompress R,
   total_in_proportion (R * lenN stream) (c_alloc c) = true /\
   stack_in_bound c (stack_bound c) = true.
 Proof. exact model_passes_predicates. Qed.
+
+(* ---- deepening round 4 (proof only) ---------------------------------------------------------- *)
+(* termination of the small fuelled loops (was "by argument"): every iteration of tablet_replicas /
+   int_items consumes at least the four length bytes of a [bytes] element, so the answer is the same for
+   any two fuels above the input length - the fuel the models pass (length + 1) is never the reason for
+   an answer *)
+Theorem C08_small_loops_fuel :
+  (forall f1 f2 count b, (List.length b < f1)%nat -> (List.length b < f2)%nat ->
+     tablet_replicas f1 count b = tablet_replicas f2 count b) /\
+  (forall f1 f2 n b, (List.length b < f1)%nat -> (List.length b < f2)%nat -> int_items f1 n b = int_items f2 n b).
+Proof. exact small_loops_fuel. Qed.
+
+(* the tie's reader: with fuel at least the length (the driver passes length + 1) the schedule cuts the
+   stream into non-empty chunks that concatenate to the stream, whatever the sizes - so the premise
+   [no_eof] of C08_chunking / C08_chunked_decode / C08_reader_after holds for every Q case *)
+Theorem C08_cut_chunks : forall fuel sizes all b,
+  (List.length b <= fuel)%nat ->
+  concat (cut_chunks fuel sizes all b) = b /\ no_eof (cut_chunks fuel sizes all b).
+Proof. exact cut_chunks_spec. Qed.
+
+(* where the reader stands after the call, in every case: behind the frame when it was accepted; at the
+   end (nothing left) when the stream ran out in the header or in the body; behind exactly the nine header
+   bytes, nothing else consumed, when the header was refused *)
+Theorem C08_reader_after : forall offers cs,
+  no_eof cs ->
+  match read_frame_chunked offers cs with
+  | Ok (_, cs') => reader_after offers cs = cs'
+  | Err e =>
+    (lenN (concat cs) < 9 /\ e = EHeaderIo /\ reader_after offers cs = []) \/
+    (9 <= lenN (concat cs) /\ run parse_header (firstn 9 (concat cs)) = Err e /\
+     concat (reader_after offers cs) = skipn 9 (concat cs) /\ no_eof (reader_after offers cs)) \/
+    (exists h r, 9 <= lenN (concat cs) /\ run parse_header (firstn 9 (concat cs)) = Ok (h, r) /\
+                 lenN (skipn 9 (concat cs)) < h_length h /\ e = EConnectionClosed /\ reader_after offers cs = [])
+  end.
+Proof. exact reader_after_spec. Qed.
+
+(* the extracted "index of the first failing row" functions (were tie-only / Examples only): the typed one
+   answers None iff [typed_row] (the function C08_typed_cell_roundtrip is about) succeeds on every row, and
+   Some (i + j) exactly for the first row j on which it fails; the same for the tuple targets; target 3
+   (Option<Vec<u8>>,) has no failing path *)
+Theorem C08_first_error_spec :
+  (forall cols row, typed_row_ok cols row = true <-> exists l, typed_row cols row = Ok l) /\
+  (forall cols rows i,
+     match typed_rows_first_error cols rows i with
+     | None => forall r, In r rows -> exists l, typed_row cols r = Ok l
+     | Some k => exists j r, k = i + N.of_nat j /\ nth_error rows j = Some r /\
+                             (forall l, typed_row cols r <> Ok l) /\
+                             forall r', In r' (firstn j rows) -> exists l, typed_row cols r' = Ok l
+     end) /\
+  (forall target cols rows i,
+     match tuple_rows_first_error target cols rows i with
+     | None => forallb (tuple_row_ok target O cols) rows = true
+     | Some k => exists j r, k = i + N.of_nat j /\ nth_error rows j = Some r /\ tuple_row_ok target O cols r = false /\
+                             forallb (tuple_row_ok target O cols) (firstn j rows) = true
+     end) /\
+  (forall cols rows i, tuple_rows_first_error 3 cols rows i = None).
+Proof. exact first_error_spec. Qed.
+
+(* kind P (a PREPARED frame, then a Rows frame decoded behind its cached metadata) had no cost theorem:
+   the ghost allocation of the pair is within twice the single-frame bound (what total_in_proportion
+   allows) and its recursion depth within DEPTH_LIMIT, for every stream *)
+Theorem C08_pair_costs : forall ft stream,
+  c_alloc (snd (decode_pair parse_custom ft stream)) <= 2 * alloc_bound (lenN stream) /\
+  c_depth (snd (decode_pair parse_custom ft stream)) <= DEPTH_LIMIT.
+Proof. exact decode_pair_costs. Qed.
 
 (* ---- non-vacuity ------------------------------------------------------------------------------ *)
 (* a RESULT/Rows frame with tracing and a warning: global table spec, columns
@@ -426,6 +491,24 @@ Example C08_ex_tuple_target :
   tuple_cell_ok 5 0 (TVector (TNative Int) 3) (Some [0; 0; 0; 1; 0; 0]) = false.
 Proof. repeat split; vm_compute; reflexivity. Qed.
 
+(* round 4: the premises of C08_small_loops_fuel / C08_cut_chunks are met on concrete inputs (and matter:
+   with too little fuel the answers differ); the first-error functions on a page whose second row fails *)
+Example C08_ex_round4 :
+  let b := [0; 0; 0; 4; 0; 0; 0; 9; 255; 255; 255; 255] in
+  int_items 13 2 b = true /\ int_items 100 2 b = true /\ int_items 1 2 b = false /\
+  (let reps := enc_replica ([1; 2; 3; 4; 5; 6; 7; 8; 9; 10; 11; 12; 13; 14; 15; 16], 3) in
+   tablet_replicas (S (List.length reps)) 1 reps = Ok [([1; 2; 3; 4; 5; 6; 7; 8; 9; 10; 11; 12; 13; 14; 15; 16], 3)] /\
+   tablet_replicas 1000 1 reps = tablet_replicas (S (List.length reps)) 1 reps /\
+   tablet_replicas 0 1 reps = Err TbDeserialization) /\
+  (List.length ex_stream <= 135)%nat /\ concat (cut_chunks 135 [8; 1; 1; 3] [8; 1; 1; 3] ex_stream) = ex_stream /\
+  concat (cut_chunks 10 [8; 1; 1; 3] [8; 1; 1; 3] ex_stream) <> ex_stream /\
+  typed_rows_first_error [ex_ccol 97] [[Some [0; 0; 0; 1]]; [Some [0; 0; 7]]; [None]] 5 = Some 6 /\
+  typed_row [ex_ccol 97] [Some [0; 0; 7]] = Err Cql.DE_ByteLengthMismatch /\
+  typed_rows_first_error [ex_ccol 97] [[Some [0; 0; 0; 1]]; [None]] 5 = None /\
+  tuple_rows_first_error 3 [ex_ccol 97] [[Some [0; 0; 7]]; [Some []]] 0 = None /\
+  tuple_rows_first_error 1 [ex_ccol 97] [[Some [0; 0; 7]]; [Some []]] 0 = Some 0.
+Proof. repeat split; vm_compute; try reflexivity; try lia; discriminate. Qed.
+
 Print Assumptions C08_roundtrip.
 Print Assumptions C08_truncation.
 Print Assumptions C08_truncation_body.
@@ -444,3 +527,8 @@ Print Assumptions C08_body_local.
 Print Assumptions C08_chunked_decode.
 Print Assumptions C08_predicates_spec.
 Print Assumptions C08_model_passes_predicates.
+Print Assumptions C08_small_loops_fuel.
+Print Assumptions C08_cut_chunks.
+Print Assumptions C08_reader_after.
+Print Assumptions C08_first_error_spec.
+Print Assumptions C08_pair_costs.
